@@ -74,10 +74,17 @@ def compute_embeddingbag_gradsampler(layer, inputs, backprops):
         else:
             end = index.shape[0]
 
+        # index_add_ (unlike ``gsm[i][index] += ...``) accumulates repeated indices within a bag
         if layer.mode == "sum":
-            gsm[i][index[begin:end]] += backprops[i]
+            gsm[i].index_add_(
+                0, index[begin:end], backprops[i].expand(end - begin, -1)
+            )
         elif layer.mode == "mean":
-            gsm[i][index[begin:end]] += backprops[i] / (end - begin)
+            gsm[i].index_add_(
+                0,
+                index[begin:end],
+                (backprops[i] / (end - begin)).expand(end - begin, -1),
+            )
 
     ret = {}
     ret[layer.weight] = gsm
